@@ -11,6 +11,11 @@
 (* set has been encoded and decoded, NextBlock starts over with new objects.  What  *)
 (* block B yields must depend on B's input only; `leak` is whatever a newly created *)
 (* object inherits from earlier ones (nothing, in the design).                       *)
+(* An object also has a LIFECYCLE: after a round the object that was encoded (KeepEncoder) or the one that was  *)
+(* decoded (KeepDecoded) can be kept, edited (SetField / ClearField) and encoded again (Repack).  Such an     *)
+(* object carries the flag word of its last _pack / _unpack (`stored`); the clauses are evaluated after every *)
+(* pack and unpack against the fields the object has AT THAT MOMENT, so a flag word remembered from an earlier *)
+(* state of the object must play no role.                                                                      *)
 (* The wire is a sequence of *tokens* (u32 / u64 / string): how tokens become      *)
 (* bytes is C39's business (WireCodec.tla).                                        *)
 (*                                                                                *)
@@ -30,7 +35,10 @@ CONSTANTS U32Vals,     \* u32 values (limb pairs) the model checker uses for ids
           SharedExtMap,\* FALSE = the design (every new object has its own empty extended map).  TRUE = all
                        \*   default-constructed objects alias ONE map (a mutable default argument): what was
                        \*   decoded or set in place earlier shows up in every later object
-          Mutation     \* "none" = the design; other values re-introduce a defect (sensitivity runs)
+          Reuse,       \* TRUE = objects may be kept, edited and encoded again (lifecycle actions enabled)
+          MaxEdits,    \* most SetField / ClearField steps between two encodings of one object
+          Mutation     \* "stale_flags" = _pack trusts a non-zero stored flag word instead of recomputing it;
+                       \* "none" = the design; other values re-introduce a defect (sensitivity runs)
 
 VARIABLES attrs,       \* the attribute set being encoded: the INPUT of the current block
           pc,          \* next step
@@ -40,8 +48,10 @@ VARIABLES attrs,       \* the attribute set being encoded: the INPUT of the curr
           rflags,      \* _flags of the decoded object
           dec,         \* the decoded attribute set (so far)
           leak,        \* extended attributes a newly created object starts with (Seq of pairs)
-          round        \* number of the current block
-vars == <<attrs, pc, flags, wire, rpos, rflags, dec, leak, round>>
+          round,       \* number of the current block
+          stored,      \* the flag word the object to be encoded carries from its past (<<0, 0>> for a new object)
+          edits        \* SetField / ClearField steps since the object was kept
+vars == <<attrs, pc, flags, wire, rpos, rflags, dec, leak, round, stored, edits>>
 
 (* ---- data ---------------------------------------------------------------------- *)
 None == <<>>
@@ -141,12 +151,13 @@ Obj == [attrs EXCEPT !.ext = Merge(Fresh(leak).ext, attrs.ext)]
 
 Init == /\ attrs \in Inputs
         /\ pc = "PackFlags" /\ flags = <<0, 0>> /\ wire = <<>> /\ rpos = 0 /\ rflags = <<0, 0>>
-        /\ leak = <<>> /\ round = 1 /\ dec = Fresh(<<>>)
+        /\ leak = <<>> /\ round = 1 /\ dec = Fresh(<<>>) /\ stored = <<0, 0>> /\ edits = 0
 
-Put(toks, next) == wire' = wire \o toks /\ pc' = next /\ UNCHANGED <<attrs, rpos, rflags, dec, round>>
+Put(toks, next) == wire' = wire \o toks /\ pc' = next /\ UNCHANGED <<attrs, rpos, rflags, dec, round, stored, edits>>
 
 PackFlags == /\ pc = "PackFlags"
-             /\ flags' = IF Mutation = "mode_flag_not_set" THEN <<FlagWord(Obj)[1], FlagWord(Obj)[2] - 4 * B(HasMode(Obj))>>
+             /\ flags' = IF Mutation = "stale_flags" /\ stored # <<0, 0>> THEN stored
+                         ELSE IF Mutation = "mode_flag_not_set" THEN <<FlagWord(Obj)[1], FlagWord(Obj)[2] - 4 * B(HasMode(Obj))>>
                          ELSE FlagWord(Obj)
              /\ leak' = IF SharedExtMap THEN Obj.ext ELSE leak          \* setting names in place writes into the shared map
              /\ Put(<<U32(flags')>>, "PackSize")
@@ -165,7 +176,7 @@ PackExt == /\ pc = "PackExt" /\ UNCHANGED <<flags, leak>>
 
 \* the reader: Tok(j) is the j-th token after the read position
 Tok(j) == wire[rpos + j]
-Take(n, d, next) == rpos' = rpos + n /\ dec' = d /\ pc' = next /\ UNCHANGED <<attrs, flags, wire, round>>
+Take(n, d, next) == rpos' = rpos + n /\ dec' = d /\ pc' = next /\ UNCHANGED <<attrs, flags, wire, round, stored, edits>>
 
 UnpackFlags == /\ pc = "UnpackFlags" /\ UNCHANGED leak
                /\ rflags' = Tok(1).n
@@ -199,11 +210,44 @@ NextBlock == /\ pc = "done" /\ round < MaxBlocks
              /\ attrs' \in Inputs
              /\ pc' = "PackFlags" /\ flags' = <<0, 0>> /\ wire' = <<>> /\ rpos' = 0 /\ rflags' = <<0, 0>>
              /\ dec' = Fresh(IF SharedExtMap THEN leak ELSE <<>>)
-             /\ round' = round + 1 /\ UNCHANGED leak
+             /\ round' = round + 1 /\ stored' = <<0, 0>> /\ edits' = 0 /\ UNCHANGED leak
+
+(* ---- the lifecycle of one object ------------------------------------------------- *)
+Groups == {"size", "uidgid", "mode", "times", "ext"}
+HasGroup(a, g) == CASE g = "size" -> HasSize(a) [] g = "uidgid" -> HasUidGid(a) [] g = "mode" -> HasMode(a)
+                    [] g = "times" -> HasTimes(a) [] g = "ext" -> HasExt(a)
+\* a with its group g as in b
+WithGroup(a, g, b) == CASE g = "size" -> [a EXCEPT !.size = b.size]
+                        [] g = "uidgid" -> [a EXCEPT !.uid = b.uid, !.gid = b.gid]
+                        [] g = "mode" -> [a EXCEPT !.mode = b.mode]
+                        [] g = "times" -> [a EXCEPT !.atime = b.atime, !.mtime = b.mtime]
+                        [] g = "ext" -> [a EXCEPT !.ext = b.ext]
+\* the object that was just encoded is kept: it remembers the flag word _pack computed
+KeepEncoder == /\ Reuse /\ pc = "done" /\ round < MaxBlocks
+               /\ pc' = "modify" /\ stored' = flags /\ edits' = 0
+               /\ UNCHANGED <<attrs, flags, wire, rpos, rflags, dec, leak, round>>
+\* the object that was just decoded (_from_msg) is kept: it remembers the flag word read off the wire
+KeepDecoded == /\ Reuse /\ pc = "done" /\ round < MaxBlocks
+               /\ pc' = "modify" /\ attrs' = dec /\ stored' = rflags /\ edits' = 0
+               /\ UNCHANGED <<flags, wire, rpos, rflags, dec, leak, round>>
+SetField(g, b) == /\ pc = "modify" /\ edits < MaxEdits /\ HasGroup(b, g)
+                  /\ attrs' = WithGroup(attrs, g, b) /\ edits' = edits + 1
+                  /\ UNCHANGED <<pc, flags, wire, rpos, rflags, dec, leak, round, stored>>
+ClearField(g) == /\ pc = "modify" /\ edits < MaxEdits /\ HasGroup(attrs, g)
+                 /\ attrs' = WithGroup(attrs, g, Empty) /\ edits' = edits + 1
+                 /\ UNCHANGED <<pc, flags, wire, rpos, rflags, dec, leak, round, stored>>
+\* the kept object (edited or not) is encoded again, and the result decoded into a new object
+Repack == /\ pc = "modify"
+          /\ pc' = "PackFlags" /\ flags' = <<0, 0>> /\ wire' = <<>> /\ rpos' = 0 /\ rflags' = <<0, 0>>
+          /\ dec' = Fresh(IF SharedExtMap THEN leak ELSE <<>>)
+          /\ round' = round + 1
+          /\ UNCHANGED <<attrs, leak, stored, edits>>
 
 Next == \/ PackFlags \/ PackSize \/ PackUidGid \/ PackMode \/ PackTimes \/ PackExt
         \/ UnpackFlags \/ UnpackSize \/ UnpackUidGid \/ UnpackMode \/ UnpackTimes \/ UnpackExt
         \/ NextBlock
+        \/ KeepEncoder \/ KeepDecoded \/ Repack
+        \/ (pc = "modify" /\ \E g \in Groups : ClearField(g) \/ \E b \in Inputs : SetField(g, b))   \* (guard first: Inputs is large)
 Spec == Init /\ [][Next]_vars
 
 (* ---- invariants (the statement of C33 on the model) ---------------------------- *)
@@ -212,12 +256,16 @@ Spec == Init /\ [][Next]_vars
 Packing == pc \in {"PackFlags", "PackSize", "PackUidGid", "PackMode", "PackTimes", "PackExt"}
 \* already-read tokens and the unread rest are the whole encoding; the reader never runs past its end
 ReaderInside == rpos <= Len(wire) /\ SubSeq(wire, 1, rpos) \o SubSeq(wire, rpos + 1, Len(wire)) = wire
-\* once _pack is over: the flags are exactly the groups present, the steps add up to the whole-set encoding
-PackOK == ~Packing => PackClauses(attrs, flags) = {} /\ wire = PackTokens(attrs)
+\* as soon as _pack has set the flag word it is exactly the groups present NOW (whatever the object carried before);
+\* once _pack is over the steps add up to the whole-set encoding.  (While a kept object is being edited - pc =
+\* "modify" - flags, wire and dec still describe its previous encoding.)
+PackOK == /\ (pc \notin {"PackFlags", "modify"} => PackClauses(attrs, flags) = {})
+          /\ (~Packing /\ pc # "modify" => wire = PackTokens(attrs))
 \* the first token always is the flag word
 FlagsFirst == pc # "PackFlags" => wire[1] = U32(flags)
 \* a field that is absent is never decoded, at any step
-AbsentStaysAbsent == /\ (~HasSize(attrs) => dec.size = None) /\ (~HasMode(attrs) => dec.mode = None)
+AbsentStaysAbsent == pc # "modify" =>
+                     /\ (~HasSize(attrs) => dec.size = None) /\ (~HasMode(attrs) => dec.mode = None)
                      /\ (~HasUidGid(attrs) => dec.uid = None /\ dec.gid = None)
                      /\ (~HasTimes(attrs) => dec.atime = None /\ dec.mtime = None)
                      /\ (~HasExt(attrs) => dec.ext = <<>>)
